@@ -41,9 +41,10 @@ type Scenario struct {
 	MapPolicy  int     `json:"map_policy"`
 	SkipAlone  bool    `json:"skip_alone,omitempty"`
 	Typed      bool    `json:"typed,omitempty"`
-	CustomNF   bool    `json:"custom_nf,omitempty"` // typed scenarios: the server has the user's own NotFound and MethodNotAllowed handlers
-	Override   bool    `json:"override,omitempty"`  // typed scenarios: every call overrides the server URL with one URL value shared by all calls
-	Prefix     string  `json:"prefix,omitempty"`    // typed scenarios: the server is mounted under this path prefix and the client is given the matching base URL
+	CustomNF   bool    `json:"custom_nf,omitempty"`   // typed scenarios: the server has the user's own NotFound and MethodNotAllowed handlers
+	SharedResp bool    `json:"shared_resp,omitempty"` // typed scenarios: the handler hands the same response object to every request of a class
+	Override   bool    `json:"override,omitempty"`    // typed scenarios: every call overrides the server URL with one URL value shared by all calls
+	Prefix     string  `json:"prefix,omitempty"`      // typed scenarios: the server is mounted under this path prefix and the client is given the matching base URL
 }
 
 // Result of one scenario.
@@ -146,6 +147,7 @@ func runPhase(t *testing.T, sc *Scenario, tasks [][]Call, faults, trivial bool, 
 		var wg sync.WaitGroup
 		tr := &SimTransport{MinChunk: minC, MaxChunk: maxC, WG: &wg}
 		var client *typedClients
+		var cannedCheck func() string
 		var impls map[string][]reflect.Type
 		if sc.Typed {
 			tp := typedPkgs[sc.Pkg]
@@ -159,7 +161,9 @@ func runPhase(t *testing.T, sc *Scenario, tasks [][]Call, faults, trivial bool, 
 			if sc.CustomNF {
 				nf, mna = customNotFound, customMethodNotAllowed
 			}
-			h, cl, whc, err := tp.New(sc.Prefix, typedHandler(tp.Impls), typedNewError, typedFill, typedSecSaw, tr, SimErrorHandler, nf, mna, typedMiddleware, secondMiddleware)
+			th, thCheck := typedHandler(tp.Impls, sc.SharedResp)
+			cannedCheck = thCheck
+			h, cl, whc, err := tp.New(sc.Prefix, th, typedNewError, typedFill, typedSecSaw, tr, SimErrorHandler, nf, mna, typedMiddleware, secondMiddleware)
 			if err != nil {
 				res.trouble = err.Error()
 				return
@@ -238,6 +242,9 @@ func runPhase(t *testing.T, sc *Scenario, tasks [][]Call, faults, trivial bool, 
 			if now := fmt.Sprintf("%#v", *client.override); now != client.overrideText {
 				res.inputChanged = "the URL value passed to WithServerURL was " + client.overrideText + " and is now " + now
 			}
+		}
+		if cannedCheck != nil && res.inputChanged == "" {
+			res.inputChanged = cannedCheck()
 		}
 		work := time.Since(start)
 		if work > maxWork {
